@@ -124,6 +124,23 @@ claim("C08",
       "the table is concrete on each path",
       "DESIGN.md 4/C08")
 
+claim("C09",
+      "EECC runs on graphs whose adjacency bits are solver variables (no-isolated-vertex precondition as constraint) "
+      "with every random.choice tie-break a solver variable forked over its distinct outcomes: every (graph, tie-break "
+      "sequence) inside the bound is explored and checked for exact edge cover, clique-ness, size bound, empty working "
+      "graph and intact isolated maximal cliques",
+      "bounded exhaustive symbolic exploration: all graphs <=5 vertices x m0 2..6, all 6-vertex graphs at m0=2 (quick) "
+      "and m0<=4 (thorough), 6-7 vertex templates; the cover is concrete on each path",
+      "DESIGN.md 4/C09")
+claim("C10",
+      "MPCC runs on graphs whose adjacency bits are solver variables and with the shuffle a symbolic permutation that is "
+      "forked (items are lists); label well-formedness, exact clique classes, id uniqueness, size limit and greedy "
+      "maximality are checked on every explored ordering",
+      "bounded exhaustive symbolic exploration: graphs <=4 vertices, 5 vertices <=4 edges (quick) / all 5-vertex, 6-vertex "
+      "<=7 edges (thorough); full n! orderings up to 120/720, beyond that the declared block reduction (ascending size "
+      "blocks, all orders inside classes of size>=3) - exact for implementations that order by size after shuffling",
+      "DESIGN.md 4/C10")
+
 
 def main():
     props = [json.loads(l)["id"] for l in open(os.path.join(ROOT, "properties.jsonl"))]
